@@ -242,6 +242,67 @@ static void case_stop(uint32_t x)
   end_kid(&k);
 }
 
+// Many children at once, polled together (more sources than a quarter of the descriptor limit).
+static long st_many_children;
+static void case_many(uint32_t x)
+{
+  enum { MAXK = 300 };
+  int n = 260 + (int) (x % 35);  // 260..294 children (more than a quarter of the limit), one descriptor each in the parent
+  static kid ks[MAXK];
+  static reproc_event_source src[MAXK];
+  struct rlimit rl, old;
+  getrlimit(RLIMIT_NOFILE, &old);
+  rl = old;
+  rl.rlim_cur = 1024;
+  setrlimit(RLIMIT_NOFILE, &rl);
+  int started = 0;
+  for (int i = 0; i < n; i++) {
+    int life = 40 + (int) ((x >> 3) + (uint32_t) i * 7) % 160;
+    if (start_kid(&ks[i], i, life, i % 200, 0, 0, KILL_STOP) < 0) {
+      printf("I\tstart failed in case_many at child %d\n", i);
+      break;
+    }
+    started++;
+  }
+  st_many_children += started;
+  int reported[MAXK] = { 0 }, left = started, rounds = 0;
+  int64_t t0 = mono_us();
+  while (left > 0 && rounds++ < 4000 && mono_us() - t0 < 20000000) {
+    int m = 0, idx[MAXK];
+    for (int i = 0; i < started; i++)
+      if (!reported[i]) {
+        src[m].process = ks[i].p;
+        src[m].interests = REPROC_EVENT_EXIT;
+        src[m].events = 0;
+        idx[m++] = i;
+      }
+    int r = reproc_poll(src, (size_t) m, 500);
+    st_polls++;
+    if (r < 0) {
+      vio("many-poll-error", "poll over %ld sources (descriptor limit 1024) returned %ld", m, r, 0, 0);
+      break;
+    }
+    int cnt = 0;
+    for (int j = 0; j < m; j++)
+      if (src[j].events) {
+        cnt++;
+        int i = idx[j];
+        long since = (long) ((mono_us() - ks[i].t_begin) / 1000);
+        if (src[j].events & ~REPROC_EVENT_EXIT) vio("many-poll-event-outside-interests", "source %ld events %ld", j, src[j].events, 0, 0);
+        if (since < ks[i].life - SLACK_MS) vio("many-poll-exit-before-exit", "EXIT for child %ld after %ld ms, it lives %ld ms", i, since, ks[i].life, 0);
+        int st = reproc_wait(ks[i].p, 0);
+        st_lower++;
+        if (st != ks[i].code) vio("many-wrong-status", "child %ld: wait(0) after its EXIT event returned %ld, it exits with %ld", i, st, ks[i].code, 0);
+        reported[i] = 1;
+        left--;
+      }
+    if (cnt != r) vio("many-poll-wrong-count", "ret %ld, %ld sources with events", r, cnt, 0, 0);
+  }
+  if (left > 0 && rounds < 4000) st_slow++;
+  for (int i = 0; i < started; i++) end_kid(&ks[i]);
+  setrlimit(RLIMIT_NOFILE, &old);
+}
+
 int main(int argc, char **argv)
 {
   if (argc < 7) return 2;
@@ -262,11 +323,12 @@ int main(int argc, char **argv)
     x ^= x << 13; x ^= x >> 17; x ^= x << 5;
     wrap_reset_case();
     st_cases++;
-    if (c % 6 < 3) case_wait(x);
+    if (c % 80 == 41) case_many(x);
+    else if (c % 6 < 3) case_wait(x);
     else if (c % 6 < 5) case_poll(x);
     else case_stop(x);
   }
-  printf("S\t%ld\t%ld\t%ld\t%ld\t%ld\t%ld\t%ld\t%ld\t%ld\t%ld\t%u\n", st_cases, st_viol, st_waits, st_polls, st_stops, st_lower,
-         st_slow, st_timeouts, st_statuses, st_deadline_events, W->n_badtarget);
+  printf("S\t%ld\t%ld\t%ld\t%ld\t%ld\t%ld\t%ld\t%ld\t%ld\t%ld\t%u\t%ld\n", st_cases, st_viol, st_waits, st_polls, st_stops, st_lower,
+         st_slow, st_timeouts, st_statuses, st_deadline_events, W->n_badtarget, st_many_children);
   return 0;
 }
